@@ -18,10 +18,14 @@ class C1(bc.ComplexS): pass
 class C2(bc.ComplexS): pass
 class M1(bc.MacrostateS): pass
 class R1(bc.ReactionS): pass
-SUBS = {"D": [D1, D2], "S": [S1], "C": [C1, C2], "M": [M1], "R": [R1]}
+class R2(bc.ReactionS):
+    RTYPES = set(['condensed', 'custom', 'bind21'])       # one type more, several less than the base class
+SUBS = {"D": [D1, D2], "S": [S1], "C": [C1, C2], "M": [M1], "R": [R1, R2]}
 ALL = list(BASE.values()) + [c for v in SUBS.values() for c in v]
 DOC = ("length a = 6\nlength b = 7\nstrand s = a b\nX = a( b + ) b*\nY = a b\nstructure Z = s + s : ..+..\n"
-       "state X = [X]\nstate Y = [Y]\nreaction [bind21 = 5 /M/s] X + Y -> Z\nreaction [condensed = 1 /s] X -> Y\n")
+       "W = s( + ) a\nV = b s* a\n"
+       "state X = [X]\nstate Y = [Y]\nreaction [bind21 = 5 /M/s] X + Y -> Z\nreaction [condensed = 1 /s] X -> Y\n"
+       "reaction [custom = 2 /s] X -> W\nreaction [open = 3 /s] W -> X + Y\n")
 
 
 def fresh():
@@ -53,8 +57,21 @@ def io_history(rng):
         return None
     for c in ALL:
         clear_singletons(c)
-    out = objectio.read_pil(DOC)
+    try:
+        out = objectio.read_pil(DOC)
+    except Exception as e:
+        fresh()
+        return {"steps": steps, "what": [f"reading a consistent document raised {type(e).__name__}: {e}"]}
     bad = []
+    # reaction types are those of the CONFIGURED reaction class: others are announced as ignored and go to `other`
+    rtypes = expect["R"].RTYPES
+    want = sorted(t for t in ("bind21", "condensed", "custom", "open") if t in rtypes)
+    got = sorted(r.rtype for r in list(out["det_reactions"]) + list(out["con_reactions"]))
+    if got != want:
+        bad.append(f"reactions read have types {got}, the configured class {expect['R'].__name__} accepts {want}")
+    w = out["complexes"].get("W")
+    if w is None or [str(x) for x in w.sequence] != ["a", "b", "+", "b*", "a*", "a"]:
+        bad.append("composite-domain expansion in W = s( + ) a is wrong: " + (repr([str(x) for x in w.sequence]) if w else "missing"))
     kinds = {"D": list(out["domains"].values()), "S": list(out["strands"].values()), "C": list(out["complexes"].values()),
              "M": list(out["macrostates"].values()), "R": list(out["det_reactions"]) + list(out["con_reactions"])}
     for k, objs in kinds.items():
